@@ -82,6 +82,8 @@ where
         f: F,
     ) -> B {
         let range_bytes = (to - from) * size_of::<T>();
+        #[cfg(feature = "verif")]
+        let range_bytes = rawdb::verif::crossover_adjust(range_bytes);
         if range_bytes > MMAP_CROSSOVER_BYTES {
             RawIoSource::<I, T, S>::new_from_parts(self.base.region(), len, from, to).fold(init, f)
         } else {
@@ -100,6 +102,8 @@ where
         f: F,
     ) -> std::result::Result<B, E> {
         let range_bytes = (to - from) * size_of::<T>();
+        #[cfg(feature = "verif")]
+        let range_bytes = rawdb::verif::crossover_adjust(range_bytes);
         if range_bytes > MMAP_CROSSOVER_BYTES {
             RawIoSource::<I, T, S>::new_from_parts(self.base.region(), len, from, to)
                 .try_fold(init, f)
